@@ -57,7 +57,7 @@ FEATURE_MENU = [
     [], [], ["^has_journal"], ["^resize_inode"], ["meta_bg", "^resize_inode"], ["^64bit"], ["64bit"], ["^flex_bg"], ["sparse_super2"],
     ["^metadata_csum", "uninit_bg"], ["^metadata_csum"], ["quota"], ["quota", "project"], ["mmp"], ["^dir_index"], ["ea_inode"], ["large_dir"],
     ["metadata_csum_seed"], ["^orphan_file"], ["^huge_file"], ["^extent", "^64bit"], ["bigalloc"], ["inline_data"], ["encrypt"], ["stable_inodes"],
-    ["^sparse_super", "^resize_inode"], ["^ext_attr"], ["^filetype"], ["^large_file"],
+    ["^sparse_super", "^resize_inode"], ["^ext_attr"], ["^filetype"], ["^large_file"], ["fast_commit"], ["^extent", "^64bit", "orphan_file"],
 ]
 EXT_MENU = [[], [], ["stride=%d"], ["stride=%d", "stripe_width=%d"], ["resize=%d"], ["num_backup_sb=%d"], ["packed_meta_blocks=1"], ["lazy_itable_init=0"],
             ["lazy_journal_init=0"], ["root_owner=1234:4321"], ["nodiscard"], ["offset=%d"], ["assume_storage_prezeroed=1"], ["orphan_file_size=%d"]]
@@ -110,6 +110,12 @@ DIRECTED = [
     (["-t", "ext4", "-b", "1024", "-O", "^has_journal,^orphan_file,uninit_bg,^metadata_csum"], ["lazy_itable_init=1", "nodiscard"], 16384, "prev"),
     (["-t", "ext4", "-b", "4096"], ["lazy_itable_init=1", "nodiscard"], 65536, "prev"),
     (["-t", "ext3", "-b", "1024", "-O", "uninit_bg"], ["lazy_itable_init=1", "nodiscard", "lazy_journal_init=1"], 32768, "prev"),
+    # an orphan file mapped by block pointers (its indirect block counts in i_blocks); a journal with a fast-commit area (its inode
+    # covers s_maxlen blocks)
+    (["-t", "ext3", "-b", "1024", "-O", "orphan_file"], [], 16384),
+    (["-t", "ext4", "-b", "1024", "-O", "^extent,^64bit"], [], 20000),
+    (["-t", "ext4", "-b", "4096", "-O", "fast_commit"], [], 65536),
+    (["-t", "ext4", "-b", "1024", "-O", "fast_commit,^extent,^64bit", "-J", "size=4"], ["orphan_file_size=65536"], 32768),
     # the listed known finding (inode count rounded below the request): 1000 inodes over 4 groups of 4-inode blocks
     (["-t", "ext4", "-b", "1024", "-I", "256", "-N", "1000"], [], 32768),
     # dense inodes under flex_bg: packed inode tables that straddle a group boundary
@@ -263,7 +269,7 @@ def requested_vs_actual(cfg, fs, dev_blocks):
             "metadata_csum_seed": ("incompat", 0x2000), "filetype": ("incompat", 0x2),
             "metadata_csum": ("ro_compat", 0x400), "uninit_bg": ("ro_compat", 0x10), "quota": ("ro_compat", 0x100), "project": ("ro_compat", 0x2000),
             "bigalloc": ("ro_compat", 0x200), "huge_file": ("ro_compat", 0x8), "sparse_super": ("ro_compat", 0x1), "large_file": ("ro_compat", 0x2),
-            "ext_attr": ("compat", 0x8), "orphan_file": ("compat", 0x1000), "stable_inodes": ("compat", 0x800)}
+            "ext_attr": ("compat", 0x8), "orphan_file": ("compat", 0x1000), "fast_commit": ("compat", 0x400), "stable_inodes": ("compat", 0x800)}
     final = {}
     for x in cfg["feats"]:
         final[x.lstrip("^")] = not x.startswith("^")
